@@ -5,7 +5,10 @@ package main
 // input  : ev=<i>:<a>.<a>..,<i>:..;it=<i>:<n>,..;ex=<i>:<r>.<r>..,..;src=<python source, "\n" escaped>
 //          ev actions: v<int> (return that int) | r<ExceptionClassName> (raise it); exhausted script: v0
 //          it        : length of every iterator created by probe i (default 0)
-//          ex        : results of successive __exit__ calls of cm(i): N T F 1 0 (default N)
+//          ex        : results of successive __exit__ calls of cm(i): N T F 1 0 (default N); L = call the program's
+//                      helper xl() (a Python loop in a frame of its own) and answer None
+//          a function f that contains a yield is called as `r = drive(f())`: drive calls next() until the
+//          generator is exhausted, logs y<value> per yielded value and returns the StopIteration value
 // V      : <path log>|<outcome>    outcome = R:<repr of f()'s result> | E:<class>@<fn>:<line>,<fn>:<line>..
 // R      : <decoded bytecode of f>|<instruction trace of f's frame (hook H2)>
 //          bytecode: NAME:arg:line per instruction; EXTENDED_ARG folded; jump targets as ->instruction index
@@ -23,11 +26,12 @@ import (
 )
 
 type c02World struct {
-	log   []string
-	ev    map[int][]string
-	itLen map[int]int
-	ex    map[int][]string
-	ctx   py.Context
+	log     []string
+	ev      map[int][]string
+	itLen   map[int]int
+	ex      map[int][]string
+	ctx     py.Context
+	globals py.StringDict
 }
 
 func (w *c02World) logf(format string, a ...interface{}) {
@@ -86,6 +90,17 @@ func (c *c02CM) M__exit__(t, v, tb py.Object) (py.Object, error) {
 		c.w.ex[c.i] = acts[1:]
 	}
 	switch a {
+	case "L":
+		// this __exit__ runs a Python loop of its own (helper xl of the program: a frame and a Vm of its
+		// own, continue through try/finally) before it answers None
+		xl, ok := c.w.globals["xl"]
+		if !ok {
+			panic("exit script L but no helper xl in the program")
+		}
+		if _, err := py.Call(xl, nil, nil); err != nil {
+			return nil, err
+		}
+		return py.None, nil
 	case "T":
 		return py.True, nil
 	case "F":
@@ -212,6 +227,25 @@ func c02FindCode(code *py.Code, name string) *py.Code {
 		}
 	}
 	return nil
+}
+
+// the value carried by a StopIteration (None when it carries none)
+func c02StopValue(err error) py.Object {
+	var value py.Object
+	switch e := err.(type) {
+	case py.ExceptionInfo:
+		value = e.Value
+	case *py.ExceptionInfo:
+		value = e.Value
+	case *py.Exception:
+		value = e
+	}
+	if exc, ok := value.(*py.Exception); ok {
+		if args, ok := exc.Args.(py.Tuple); ok && len(args) > 0 {
+			return args[0]
+		}
+	}
+	return py.None
 }
 
 func c02Outcome(err error) string {
@@ -399,18 +433,34 @@ func c02Run(line string) (string, string) {
 		i := int(args[0].(py.Int))
 		return &c02CM{w: w, i: i}, nil
 	}
+	driveFn := func(self py.Object, args py.Tuple) (py.Object, error) {
+		g := args[0]
+		for n := 0; n < 100000; n++ {
+			v, err := py.Next(g)
+			if err != nil {
+				if py.IsException(py.StopIteration, err) {
+					return c02StopValue(err), nil
+				}
+				return nil, err
+			}
+			w.logf("y%s", c02ConstRepr(v))
+		}
+		panic("drive: generator does not end")
+	}
 	module, err := ctx.ModuleInit(&py.ModuleImpl{
 		Info: py.ModuleInfo{Name: "c02main"},
 		Methods: []*py.Method{
 			py.MustNewMethod("ev", evFn, 0, ""),
 			py.MustNewMethod("it", itFn, 0, ""),
 			py.MustNewMethod("cm", cmFn, 0, ""),
+			py.MustNewMethod("drive", driveFn, 0, ""),
 		},
 	})
 	if err != nil {
 		panic(err)
 	}
 
+	w.globals = module.Globals
 	var trace []string
 	kinds := "LEFH"
 	vm.VerifInstrHook = func(frame *py.Frame, op vm.OpCode, arg int32, pc int32) {
